@@ -25,6 +25,7 @@ func propC06() *Property {
 			{ID: "C06.K4", Title: "regexp match indexing within capture structure", Floor: 19, Run: c06K4},
 			{ID: "C06.K5", Title: "explicit panics are unreachable or discharged", Floor: 26, Run: c06K5},
 			{ID: "C06.K7", Title: "every recursion has a checked measure", Floor: 3, Run: c06K7},
+			{ID: "C06.K8", Title: "URLs (identifiers can be absent) are dereferenced only where provably non-nil", Floor: 10, Run: c06K8},
 		},
 	}
 }
@@ -1147,4 +1148,63 @@ func splicerPagesAreCollections(P *Program) (bool, string) {
 		}
 	}
 	return why == "", why
+}
+
+// c06K8: a document's identifier can be absent, so *url.URL values travel
+// through the module as possibly-nil pointers (FetchUnknown returns a nil id,
+// constructors store it, Identifier() hands it out). Every dereference of a
+// *url.URL — a field read or a call of one of its methods — must be at a place
+// where the pointer is provably non-nil: dominated by a nil test, or produced
+// by url.Parse / ResolveReference with the error checked, or a parameter that
+// every call site provides non-nil.
+func c06K8(c *Ctx) {
+	P := c.P
+	nn := newNonNil(P)
+	isURLPtr := func(t types.Type) bool {
+		p, ok := t.Underlying().(*types.Pointer)
+		return ok && isNamed(p.Elem(), "net/url", "URL")
+	}
+	for _, fn := range P.Funcs {
+		fname := FuncName(fn)
+		eachInstr(fn, func(b *ssa.BasicBlock, _ int, in ssa.Instruction) {
+			var ptr ssa.Value
+			what := ""
+			switch x := in.(type) {
+			case *ssa.FieldAddr:
+				if isURLPtr(x.X.Type()) {
+					ptr, what = x.X, "."+fieldOf(x).Name()
+				}
+			case *ssa.UnOp:
+				// *u (copy of the whole URL)
+				if _, valIsPtr := x.Type().Underlying().(*types.Pointer); x.Op == token.MUL && !valIsPtr && isURLPtr(x.X.Type()) {
+					if _, isAlloc := x.X.(*ssa.Alloc); !isAlloc {
+						ptr, what = x.X, "*"
+					}
+				}
+			default:
+				cc := callOf(in)
+				if cc == nil || cc.IsInvoke() {
+					return
+				}
+				f := calleeObj(cc)
+				if f == nil || f.Pkg() == nil || f.Pkg().Path() != "net/url" {
+					return
+				}
+				sig := f.Type().(*types.Signature)
+				if sig.Recv() == nil || !isURLPtr(sig.Recv().Type()) || len(cc.Args) == 0 {
+					return
+				}
+				ptr, what = cc.Args[0], "."+f.Name()+"()"
+			}
+			if ptr == nil {
+				return
+			}
+			if _, isAlloc := ptr.(*ssa.Alloc); isAlloc {
+				return
+			}
+			ok := nn.Value(ptr, b, 0)
+			c.check(ok, fname+"/url-deref:"+what, P.InstrPos(in), fname, "the URL is provably non-nil here",
+				"a *url.URL that may be nil (identifiers can be absent) is dereferenced without a dominating nil test: a document without a usable id crashes the program")
+		})
+	}
 }
